@@ -160,6 +160,10 @@ func (s *jwtSigner) Hash() []byte {
 	jwk := s.jwk
 	s.mut.RUnlock()
 
+	return s.hashFor(jwk)
+}
+
+func (s *jwtSigner) hashFor(jwk jose.JSONWebKey) []byte {
 	hash := sha256.New()
 	// the separators ensure that different settings cannot result in the same sequence of bytes
 	// (like the key id a and the issuer ES256x compared to the key id aES256 and the issuer x)
@@ -181,6 +185,14 @@ func (s *jwtSigner) Hash() []byte {
 }
 
 func (s *jwtSigner) Sign(sub string, ttl time.Duration, customClaims map[string]any) (string, error) {
+	token, _, err := s.sign(sub, ttl, customClaims)
+
+	return token, err
+}
+
+// sign returns the signed token together with the hash of the signer for the key used. The key store may be
+// reloaded at any time. So, a hash retrieved before or afterwards, may stand for another key.
+func (s *jwtSigner) sign(sub string, ttl time.Duration, customClaims map[string]any) (string, []byte, error) {
 	s.mut.RLock()
 	jwk := s.jwk
 	key := s.key
@@ -193,7 +205,7 @@ func (s *jwtSigner) Sign(sub string, ttl time.Duration, customClaims map[string]
 			WithHeader("kid", jwk.KeyID).
 			WithHeader("alg", jwk.Algorithm))
 	if err != nil {
-		return "", errorchain.NewWithMessage(heimdall.ErrInternal, "failed to create JWT signer").CausedBy(err)
+		return "", nil, errorchain.NewWithMessage(heimdall.ErrInternal, "failed to create JWT signer").CausedBy(err)
 	}
 
 	claims := make(map[string]any)
@@ -212,10 +224,10 @@ func (s *jwtSigner) Sign(sub string, ttl time.Duration, customClaims map[string]
 
 	rawJwt, err := builder.Serialize()
 	if err != nil {
-		return "", errorchain.NewWithMessage(heimdall.ErrInternal, "failed to sign claims").CausedBy(err)
+		return "", nil, errorchain.NewWithMessage(heimdall.ErrInternal, "failed to sign claims").CausedBy(err)
 	}
 
-	return rawJwt, nil
+	return rawJwt, s.hashFor(jwk), nil
 }
 
 func (s *jwtSigner) Keys() []jose.JSONWebKey {
